@@ -448,6 +448,32 @@ def check_state_plumb(ctx, R):
         R.ob('STATE-PLUMB', ctx.construct(init), 'seed', seeds and ws,
              'accumulate.__init__ does not seed self.state from start / take with_state from its keywords',
              ctx.where(init, init.node.lineno))
+    # the helper classes keep start / with_state exactly as given (a constructor that stores `start if with_state else None`
+    # silently drops the seed of a pipeline resumed without state exposure)
+    from .dasksib import _ctor_fields as _cf
+    for cname_, c_ in sorted(M.module(DFC).classes.items()):
+        init_ = c_.methods.get('__init__')
+        if init_ is None or cname_ in ('PeriodicDataFrame', 'Random'):
+            continue
+        ps_ = init_.params() + [a.arg for a in init_.node.args.kwonlyargs]
+        for opt in ('start', 'with_state'):
+            if opt not in ps_:
+                continue
+            try:
+                got = _cf(M, c_, init_).get(opt)
+            except AnalysisError:
+                got = None
+            if got is None:
+                # not stored here: handed to the base constructor under the same name
+                fwd = any(isinstance(n, ast.Call) and isinstance(n.func, ast.Attribute) and n.func.attr == '__init__'
+                          and any(k.arg == opt and isinstance(k.value, ast.Name) and k.value.id == opt for k in n.keywords)
+                          for n in own_nodes(init_.node))
+                ok_, why_ = fwd, 'is neither stored nor handed to the base constructor'
+            else:
+                ok_, why_ = got == [opt], 'is stored as %s' % ' | '.join(got)
+            R.ob('STATE-PLUMB', ctx.construct(init_), 'keeps-' + opt, ok_,
+                 '%s.__init__: the option `%s` %s, not as given: a pipeline resumed with it behaves as if it had not been passed'
+                 % (cname_, opt, why_), ctx.where(init_, init_.node.lineno))
     # helper classes hand their stored start/with_state to the accumulation they build
     for cname in ('Rolling', 'Window', 'Expanding', 'WindowedGroupBy'):
         c = M.cls(DFC, cname)
